@@ -46,7 +46,8 @@ Fixpoint parse (fuel : nat) (has_orig : option nat) (t : list Z) : option (body 
     | 8%Z :: p :: l :: r => match parse f has_orig r with Some (b, r1) => Some (Filter (mkp p (Z.to_N l) 0) (Z.to_N l) b, r1) | None => None end
     | 9%Z :: p :: a :: l :: r =>
         let arg := if Z.eqb a 0 then ACur else if Z.eqb a 1 then ANew (cls_idx 0) (2000 + Z.to_N l)
-                   else if Z.eqb a 2 then ANone else match has_orig with Some i => AObj i | None => ANone end in
+                   else if Z.eqb a 2 then ANone else if Z.eqb a 4 then AStored (cls_idx (Z.modulo l 6)) (2000 + Z.to_N l)
+                   else match has_orig with Some i => AObj i | None => ANone end in
         Some (FilterCall (mkp p (Z.to_N l) 0) arg (Z.to_N l), r)
     | 10%Z :: l :: r => match parse f has_orig r with Some (b, r1) => Some (WithCtx (Z.to_N l) b, r1) | None => None end
     | 11%Z :: r => Some (Tamper, r)
@@ -161,14 +162,16 @@ Definition run (args : list bytes) : bytes :=
     let st := if active then enter_orig (z 4%nat) (z 5%nat) else st0 in
     let a := z 2%nat in
     let arg := if Z.eqb a 0 then ACur else if Z.eqb a 1 then ANew (cls_idx 0) 2002
-               else if Z.eqb a 2 then ANone else if active then AObj 0%nat else ANone in
+               else if Z.eqb a 2 then ANone else if Z.eqb a 4 then AStored (cls_idx (z 6%nat)) 2002
+               else if active then AObj 0%nat else ANone in
     let '(_, st1, out) := exec (FilterCall (mkp (z 0%nat) 2 (z 1%nat)) arg 2) (sare_blank 0) st in
     report (if active then pop st1 else st1) out None false
   else if is_op "rpoe" op then
     let rm := z 0%nat in
     let bd := parse_body None (skipn 1 zs) in
     let '(_, st1, outb) := exec bd (sare_blank 0) st0 in
-    let '(st2, out) := rpoe_exit (if Z.eqb rm 2 then Some (cls_idx 0) else if Z.eqb rm 3 then Some (cls_idx 2) else None)
+    let '(st2, out) := rpoe_exit (if Z.eqb rm 2 then Some (cls_idx 0) else if Z.eqb rm 3 then Some (cls_idx 2)
+                                  else if Z.leb 4 rm then Some (mkcls (101 + Z.to_N rm) true true) else None)
                                  (FProg 2) st1 outb in
     report st2 out None (is_normal outb)
   else if is_op "cause" op then
